@@ -588,6 +588,25 @@ def rule_p4(repo, res):
     res.floor("immutable-builtin subclasses with their own __new__", n, 1)
 
 
+def rule_p5(repo, res):
+    """P5: no class of pvl/collections.py short-cuts copying by returning itself from __copy__/__deepcopy__.  The value
+    classes are immutable tuples but not deeply so: the loader builds Quantity(value=[...], units=...) for units after a
+    sequence, and a container returning itself is no copy at all."""
+    n = 0
+    for cname, cnode in repo.module("collections").classes.items():
+        for fn in [x for x in cnode.body if isinstance(x, ast.FunctionDef) and x.name in ("__copy__", "__deepcopy__")]:
+            n += 1
+            rets = [r for r in ast.walk(fn) if isinstance(r, ast.Return) and r.value is not None]
+            bad = [r for r in rets if isinstance(r.value, ast.Name) and r.value.id == fn.args.args[0].arg]
+            res.oblige("P5", f"{cname}.{fn.name} does not return the object itself", ok=not bad)
+            for r in bad:
+                res.add(Finding("P5", f"{cname}.{fn.name}", "returns self",
+                                f"{cname}.{fn.name} returns the object itself: copy.deepcopy of a container then shares this value with "
+                                "the original; the value can hold a mutable list (units after a sequence give Quantity(value=[...], ...)), so "
+                                "a change made through the copy shows in the original", where=f"pvl/collections.py:{r.lineno}"))
+    res.oblige("P5", f"{n} __copy__/__deepcopy__ method(s) in pvl/collections.py examined", ok=True, nontrivial=False)
+
+
 def rule_p2(repo, res):
     """P2: the item list is only ever assigned fresh lists and never escapes;
     copy() is type(self)(self)."""
